@@ -6,6 +6,8 @@ From V.c12 Require Import C12Model C12Spec C12Sidx C12PartProofs C12BoundProofs 
 From V.c12 Require Import C12Bytes C12BytesProofs C12StreamProofs C12EptProofs C12C01Model C12C01Proofs.
 From V.c05 Require C05SegCodecModel.
 From V.c12 Require Import C12PosProofs C12SegBytesProofs.
+From V.c05 Require C05Model C05FragModel C05SegModel C05SegProofs.
+From V.c12 Require Import C12C05SimProofs.
 
 (* Every accepted top-level sequence, every flag combination: the children of the fragments of the
    segments, flattened in order, are exactly the emsg/moof/mdat boxes of the input in order (minus
@@ -180,6 +182,40 @@ Theorem C12_partition_bytes_pair :
         C05SegCodecModel.next_box (skipn (N.to_nat (moff + b_size m)) (bytes_of env bs)) = Ok (ty, sz, hl, body, tail)).
 Proof. exact partition_bytes_pair. Qed.
 Print Assumptions C12_partition_bytes_pair.
+
+(* C12's assembly model and C05's segment decoder (coq/c05 C05SegModel.seg_decode, read-only) are two transcriptions of
+   DecodeFile's loop over different box types; they agree.  to_tbox abstracts a C12 box to a C05 box (the decoded trafs of a
+   moof, the payload of an mdat and the position of a box are supplied by tag), view reads a C12 File as a C05 decoder state
+   (fragments: moof = (its position, its trafs), mdat = (its position + header size, its payload)).  Default decode flags,
+   a stream of styp/sidx/emsg/moof/mdat/other boxes at consistent positions below 2^64, with or without an init segment in
+   front: whenever C12's loop accepts, C05's accepts the abstracted stream with exactly the view of C12's result. *)
+Theorem C12_c05_simulation :
+  forall (trafs_of : N -> list C05FragModel.traf) (payload_of : N -> list N) (mpos : N -> N)
+         (bs : list topbox) (fragmented0 : bool) (pos0 : N) (f : file),
+  forallb seg_kind bs = true -> Forall (mdat_ok payload_of) bs -> positions_ok mpos pos0 bs ->
+  pos0 + sumN (map b_size bs) < M64 ->
+  decode_loop (file0 fragmented0) pos0 None bs = Ok f ->
+  C05SegModel.seg_decode fragmented0 pos0 (map (to_tbox trafs_of payload_of) bs) = Ok (view trafs_of payload_of mpos f).
+Proof. exact sim_decode. Qed.
+Print Assumptions C12_c05_simulation.
+
+(* ... hence, through C05_segment_decode (C05SegProofs.decode_stream): when the abstracted stream is the stream of a
+   segment as C05 describes it (head = nothing or styp + sidx boxes; per encoded fragment: boxes before the moof, moof, mdat,
+   boxes behind), the fragments C12 assembles are, one for one and in order, these encoded fragments, each with its moof at
+   the moof's stream position and its mdat payload at the payload's stream position (items_dfrs): the partition C12 proves
+   things about is the one C05's read-back theorems (C05_segment_roundtrip and its variants) start from. *)
+Theorem C12_c05_segment_decode :
+  forall (trafs_of : N -> list C05FragModel.traf) (payload_of : N -> list N) (mpos : N -> N)
+         (head : list C05SegModel.xbox) (its : list C05SegModel.eitem)
+         (bs : list topbox) (fragmented0 : bool) (pos0 : N) (f : file),
+  C05SegModel.head_ok head = true -> forallb C05SegProofs.item_kinds its = true ->
+  map (to_tbox trafs_of payload_of) bs = C05SegModel.seg_stream head its ->
+  forallb seg_kind bs = true -> Forall (mdat_ok payload_of) bs -> positions_ok mpos pos0 bs ->
+  pos0 + sumN (map b_size bs) < M64 ->
+  decode_loop (file0 fragmented0) pos0 None bs = Ok f ->
+  C05SegModel.file_frags (view trafs_of payload_of mpos f) = C05SegProofs.items_dfrs (pos0 + C05SegModel.xsum head) its.
+Proof. exact c05_segment_decode. Qed.
+Print Assumptions C12_c05_segment_decode.
 
 (* Outside layout_ok File.Encode does NOT reproduce the file (each line: accepted, encoded without error,
    tags of the boxes written): a free box is dropped; a sidx behind a fragment moves in front of its
@@ -413,3 +449,14 @@ Proof.
   - eexists. split; [vm_compute; reflexivity|]. vm_compute. split; reflexivity.
   - eexists. split; vm_compute; reflexivity.
 Qed.
+
+(* `styp moof mdat` at position 100 behind an init segment, moof/mdat = C05's witness fragment: all hypotheses of
+   C12_c05_segment_decode hold; the one fragment has its moof at 124 and its payload at 232 *)
+Example C12_example_c05 :
+  C05SegModel.head_ok sim_head = true /\ forallb C05SegProofs.item_kinds sim_its = true /\
+  map (to_tbox sim_trafs sim_payload) sim_boxes = C05SegModel.seg_stream sim_head sim_its /\
+  forallb seg_kind sim_boxes = true /\ Forall (mdat_ok sim_payload) sim_boxes /\ positions_ok sim_pos 100 sim_boxes /\
+  exists f, decode_loop (file0 true) 100 None sim_boxes = Ok f /\
+            C05SegModel.file_frags (view sim_trafs sim_payload sim_pos f) =
+              [C05SegModel.mkDfr (Some (124, sim_trafs 0)) (Some (232, [7]))].
+Proof. exact sim_example. Qed.
